@@ -16,7 +16,7 @@ use dicom_encoding::transfer_syntax::TransferSyntaxIndex;
 use dicom_transfer_syntax_registry::TransferSyntaxRegistry;
 use dicom_ul::association::client::ClientAssociationOptions;
 use dicom_ul::association::server::{AccessControl, DefaultNegotiation, ServerAssociationOptions};
-use dicom_ul::association::{read_pdu_from_wire, Association, SyncAssociation};
+use dicom_ul::association::{read_pdu_from_wire, SyncAssociation};
 use dicom_ul::pdu::{
     AssociationRJResult, AssociationRJServiceProviderASCEReason, AssociationRJServiceProviderPresentationReason,
     AssociationRJServiceUserReason, AssociationRJSource, AssociationRQ, PDataValue, PDataValueType,
